@@ -317,7 +317,9 @@ func writeStrictASCII(sb *strings.Builder, s string, quote byte) {
 				sb.WriteByte(quote)
 				inRun = true
 			}
-			if c == quote || c == '\\' {
+			// '>' must be escaped too: the strict parser treats an unescaped '>' inside a quoted run
+			// as the end of the item ("unclosed quote string"); it reads `\>` back as a literal '>'.
+			if c == quote || c == '\\' || c == '>' {
 				sb.WriteByte('\\')
 			}
 			sb.WriteByte(c)
